@@ -897,6 +897,13 @@ func (q *strQuery) Nan() interface{}    { return math.NaN() }
 func (q *strQuery) Infs() interface{}   { return []float64{math.Inf(-1), 1, math.NaN()} }
 func (q *strQuery) Huge() interface{}   { return uint64(1) << 63 }
 
+// a chain that never ends, for requests deeper than the library resolves (MaxResolveDepth): whatever it does about
+// them, the response is an envelope and JSON
+type strNode struct{ Name string }
+
+func (n *strNode) Next() *strNode { return &strNode{Name: n.Name + "'"} }
+func (q *strQuery) Node() *strNode { return &strNode{Name: "b\"q\\"} }
+
 type strSchema struct{ Query *strQuery }
 
 // the characters response strings are built from: plain, every character with a short JSON escape, control
@@ -927,7 +934,8 @@ func gqlStringLiteral(s string) (string, bool) {
 func contentCases(enc *json.Encoder, rep *vh.Report) {
 	root := ggql.NewRoot(&strSchema{Query: &strQuery{}})
 	if err := root.ParseString("type Query { echo(s: String): String say(word: String, again: String): String fail(s: String): String many(s: String): String " +
-		"big: Float neg: Float bigStr: Float bigs: [Float] inf: Float64 nan: Float64 infs: [Float64] huge: Int }"); err != nil {
+		"big: Float neg: Float bigStr: Float bigs: [Float] inf: Float64 nan: Float64 infs: [Float64] huge: Int node: Node nodes: [Node] }\n"+
+		"type Node { next: Node name: String names: [String] }"); err != nil {
 		vh.Die("content root: %s", err)
 	}
 	for _, q := range []string{"{ big }", "{ neg bigStr }", "{ bigs }", "{ inf }", "{ nan }", "{ infs }", "{ huge }", "{ big neg bigStr bigs inf nan infs huge }"} {
@@ -942,6 +950,18 @@ func contentCases(enc *json.Encoder, rep *vh.Report) {
 		rep.Class("content:numbers")
 	}
 	positionCases(enc, rep, root)
+	for _, depth := range []int{3, 97, 98, 99, 100, 101, 105} {
+		q := "{ node " + strings.Repeat("{ next ", depth) + "{ name } " + strings.Repeat("} ", depth) + "}"
+		res := root.ResolveString(q, "", nil)
+		sk := skeleton(res)
+		sk["lex"] = lexemes(q)
+		sk["rejected"] = false
+		sk["text"] = fmt.Sprintf("{ node { next ... (%d levels) { name } } }", depth)
+		sk["layout"] = 0
+		_ = enc.Encode(sk)
+		rep.Case(fmt.Sprintf("depth|%d", depth), true)
+		rep.Class("content:depth")
+	}
 	var strs []string
 	for _, a := range contentChars {
 		strs = append(strs, a)
